@@ -200,6 +200,26 @@ def run(ctx):
             if healthy.shutdowns != 1:
                 ctx.violation("oracle", f"{what}: the healthy processor was shut down {healthy.shutdowns} times", case=case)
             nontrivial.add((canon(g["nodes"]), kind, p, fail_sd, always))
+        # a processor that never raises but CONSUMES what the events carry (empties every list / dict payload while rendering it)
+        from hypergraph.events.processor import EventProcessor
+
+        class Consuming(EventProcessor):
+            def on_event(self, ev):
+                for nm in list(getattr(ev, "__dataclass_fields__", {})):
+                    v = getattr(ev, nm, None)
+                    if isinstance(v, list):
+                        del v[:]
+                    elif isinstance(v, dict):
+                        v.clear()
+        _, h1 = make_procs("sync", fail_at=-1)
+        out = execute(g, rc, [Consuming(), h1])
+        n_eval += 1
+        dist["consuming_runs"] = dist.get("consuming_runs", 0) + 1
+        for key in ("status", "values", "error", "log"):
+            if out[key] != base[key]:
+                ctx.violation("oracle", f"a processor that empties the list / dict payloads of the events it receives changed the run's {key}: "
+                              f"{str(out[key])[:150]} instead of {str(base[key])[:150]}", case={"graph": g, "run": rc, "fault": {"kind": "consuming"}})
+                break
         if len(samples) < 2:
             samples.append({"graph": g["nodes"], "run": rc, "stream": stream[:20]})
     ctx.coverage.update(
@@ -207,7 +227,8 @@ def run(ctx):
         rule="for each generated program (dag / gated / loop / nested / emit; 30% failing; continue/raise; both runners): the baseline without "
              "processors, and one run per fault point = every event index of the stream (12 sampled + first + last in the quick tier when the "
              "stream is longer), fail-on-every-event, fail-at-shutdown; sync processors and truly suspending AsyncEventProcessors; a healthy "
-             "processor registered after the failing one. distinct = (program, processor kind, fault point)",
+             "processor registered after the failing one; plus one run per program beside a processor that never raises but empties every "
+             "list / dict payload of the events it is handed. distinct = (program, processor kind, fault point)",
         distribution=dist, samples=samples, exhaustive=not ctx.quick())
 
 
